@@ -97,6 +97,21 @@ def run(tier, replay=None):
         if m and m.group(2) != "0":
             base = "inflate-use%s-history0" % m.group(1)
             pairs.append(("inflate-history-independent|%s: %s" % (USE[int(m.group(1))], HIST[m.group(2)]), obs[base], obs[name], {"pair": [base, name]}))
+    HH = {"1": "scratch hash table left by a call on the same data", "2": "scratch left by a call on a shifted copy of the data", "3": "scratch filled with small positions", "4": "scratch filled with ones", "5": "scratch left by a call on the same data with every 97th byte altered", "6": "scratch left by a call on the same data with every 61st byte altered"}
+    for name in sorted(obs):
+        m = re.match(r"histogram-size(\d)-history(\d)", name)
+        if m and m.group(2) != "0":
+            base = "histogram-size%s-history0" % m.group(1)
+            pairs.append(("histogram-history-independent|isal_update_histogram counts (input size class %s): %s" % (m.group(1), HH[m.group(2)]), obs[base], obs[name], {"pair": [base, name]}))
+    for name in sorted(obs):
+        m = re.match(r"histogram-short-(\d+)-history1", name)
+        if m:
+            base = "histogram-short-%s-history0" % m.group(1)
+            pairs.append(("histogram-history-independent|isal_update_histogram counts on a short input whose repeated sequence first occurs inside a match, scratch hash table filled with that position (30000 random inputs; this is number %s)" % m.group(1), obs[base], obs[name], {"pair": [base, name]}))
+    if "histogram-prefill-first" in obs:
+        others = [n2 for n2 in obs if n2.startswith("histogram-prefill-other-")]
+        for n2 in others or ["histogram-prefill-first"]:
+            pairs.append(("histogram-history-independent|isal_update_histogram counts with the scratch hash table filled with one position (every position of the input in turn)", obs["histogram-prefill-first"], obs[n2], {"pair": ["histogram-prefill-first", n2]}))
     # the same compression with the context at 4096 addresses: any output different from the first address's is paired with it
     for name in sorted(obs):
         m = re.match(r"address-level(\d)-mode(\d)-first", name)
